@@ -7,8 +7,11 @@ import (
 	"crypto/ed25519"
 	"crypto/elliptic"
 	"crypto/rsa"
+	"crypto/x509"
+	"encoding/base64"
 	"fmt"
 	"io"
+	"math/big"
 	"sort"
 	"strings"
 
@@ -376,8 +379,16 @@ func runC10(c *Ctx) {
 			return true
 		})
 		alter("rrsig-class", func(s *dns.RRSIG, k *dns.DNSKEY, set []dns.RR) bool { s.Hdr.Class = 3; return true })
-		alter("key-not-zone", func(s *dns.RRSIG, k *dns.DNSKEY, set []dns.RR) bool { k.Flags &^= dns.ZONE; s.KeyTag = k.KeyTag(); return true })
-		alter("key-protocol", func(s *dns.RRSIG, k *dns.DNSKEY, set []dns.RR) bool { k.Protocol = 2; s.KeyTag = k.KeyTag(); return true })
+		alter("key-not-zone", func(s *dns.RRSIG, k *dns.DNSKEY, set []dns.RR) bool {
+			k.Flags &^= dns.ZONE
+			s.KeyTag = k.KeyTag()
+			return true
+		})
+		alter("key-protocol", func(s *dns.RRSIG, k *dns.DNSKEY, set []dns.RR) bool {
+			k.Protocol = 2
+			s.KeyTag = k.KeyTag()
+			return true
+		})
 		alter("key-owner", func(s *dns.RRSIG, k *dns.DNSKEY, set []dns.RR) bool { k.Hdr.Name = "other." + k.Hdr.Name; return true })
 		alter("key-class", func(s *dns.RRSIG, k *dns.DNSKEY, set []dns.RR) bool { k.Hdr.Class = 3; return true })
 		alter("key-bits", func(s *dns.RRSIG, k *dns.DNSKEY, set []dns.RR) bool {
@@ -447,5 +458,35 @@ func runC10(c *Ctx) {
 			}
 			return true
 		})
+	}
+	// RSA keys at every supported modulus size up to the 4096-bit maximum (fixed keys, see rsakeys.go):
+	// what Sign produces with the private key must verify with the DNSKEY built from the public key
+	for _, bits := range []int{1024, 2048, 3072, 4096} {
+		der, _ := base64.StdEncoding.DecodeString(rsaKeysDER[bits])
+		priv, err := x509.ParsePKCS1PrivateKey(der)
+		if err != nil {
+			c.Pred("rsa-sizes", "fixed-key-parses", fmt.Sprint(bits), false, err.Error(), "nil", true)
+			continue
+		}
+		eb := big.NewInt(int64(priv.PublicKey.E)).Bytes()
+		pk := append([]byte{byte(len(eb))}, eb...)
+		pk = append(pk, priv.PublicKey.N.Bytes()...)
+		for _, alg := range []uint8{dns.RSASHA256, dns.RSASHA512, dns.RSASHA1} {
+			key := &dns.DNSKEY{Hdr: dns.RR_Header{Name: "example.org.", Rrtype: dns.TypeDNSKEY, Class: 1, Ttl: 3600}, Flags: 257, Protocol: 3, Algorithm: alg, PublicKey: toB64(pk)}
+			set := []dns.RR{&dns.A{Hdr: dns.RR_Header{Name: "www.example.org.", Rrtype: dns.TypeA, Class: 1, Ttl: 60}, A: []byte{192, 0, 2, byte(bits / 512)}}}
+			rs := &dns.RRSIG{Hdr: dns.RR_Header{Ttl: 60}, Algorithm: alg, SignerName: "example.org.", KeyTag: key.KeyTag(), Inception: 1700000000, Expiration: 1900000000}
+			in := fmt.Sprintf("rsa-bits=%d alg=%d", bits, alg)
+			if err := rs.Sign(priv, set); err != nil {
+				c.Pred("rsa-sizes", "sign-real:rsa", in, false, err.Error(), "nil", true)
+				continue
+			}
+			verr := rs.Verify(key, set)
+			c.Pred("rsa-sizes", "sign-then-verify", in, verr == nil, fmt.Sprint(verr), "nil", true)
+			// and an independent check of the signature with the standard library
+			h := map[uint8]crypto.Hash{dns.RSASHA256: crypto.SHA256, dns.RSASHA512: crypto.SHA512, dns.RSASHA1: crypto.SHA1}[alg]
+			sigB, _ := base64.StdEncoding.DecodeString(rs.Signature)
+			c.Pred("rsa-sizes", "signature-length", in, len(sigB) == bits/8, fmt.Sprint(len(sigB)), fmt.Sprint(bits/8), true)
+			_ = h
+		}
 	}
 }
